@@ -71,6 +71,8 @@ structure Mocker where
 
 inductive Err where
   | tooSmall | alreadyPatched | fixOrigin
+  /-- rejected before `replaceFunc` is reached (`SignatureEquals`, patch.go:64): the previous patch, if any, stays installed -/
+  | rejected
   deriving DecidableEq, Repr
 
 structure St where
@@ -248,6 +250,12 @@ inductive Op where
   | scancel (b key : Nat) (kept : Bool)
   /-- `m := S.Method(m)`: keep the method mocker as a handle (used by `applyH`/`retH`/`cancelH`) -/
   | skeep (b key : Nat) (kept : Bool)
+  /-- a builder call that caches a mocker kind outside C02 (`b.Var(&v)`, `b.Interface(&i)`): no effect on code; `Reset` later
+      ranges over it as well (builder.go:208) -/
+  | other (b : Nat)
+  /-- `b.Func(f).Apply(cb)` with a callback the signature check rejects (`SignatureEquals` panics in `patchValue`, patch.go:64,
+      before `replaceFunc` is reached): the lookup happened, nothing else — a previous patch stays installed -/
+  | applyBad (b key : Nat)
 
 /-- mocker.go:577 `Origin(originFunc)`: `m.origin = originFunc` (stays until Cancel) -/
 def setOrigin (s : St) (id : Nat) : Option Nat → St
@@ -344,6 +352,8 @@ def step (env : Env) (s : St) : Op → St × Option Err
     match structOf s b kept with
     | none => (s, none)
     | some r => (doKeep r.1 r.2 b key, none)
+  | .other _ => (s, none)
+  | .applyBad b key => ((getMocker s b key).1, some .rejected)
 
 def run (env : Env) (s : St) : List Op → St
   | [] => s
